@@ -23,17 +23,19 @@ const (
 	FailEv               // return a unique error together with a non-nil event
 )
 
-func (b Behav) String() string { return [...]string{"pass", "replace", "drop", "fail", "fail+event"}[b] }
+func (b Behav) String() string {
+	return [...]string{"pass", "replace", "drop", "fail", "fail+event"}[b]
+}
 
 // Lin is the payload used by the Broker checks. Path records the lineage
 // (send id, then the name of every node that replaced the event).
 type Lin struct {
-	Path   string
-	SendID int
-	Script map[*N]Behav
-	Block  map[*N]chan struct{} // nodes that block until the channel is closed
-	Enter  func(n *N)           // optional callback when a node is entered (C12 re-entry, C03 bookkeeping)
-	ErrKind map[*N]int          // flavour of the error a failing node returns (see ErrFor)
+	Path    string
+	SendID  int
+	Script  map[*N]Behav
+	Block   map[*N]chan struct{} // nodes that block until the channel is closed
+	Enter   func(n *N)           // optional callback when a node is entered (C12 re-entry, C03 bookkeeping)
+	ErrKind map[*N]int           // flavour of the error a failing node returns (see ErrFor)
 }
 
 // Call is one recorded node invocation.
@@ -82,7 +84,9 @@ type NodeErr struct {
 	What string
 }
 
-func (e *NodeErr) Error() string { return fmt.Sprintf("harness node %s %s (send %d)", e.Node.Name, e.What, e.Send) }
+func (e *NodeErr) Error() string {
+	return fmt.Sprintf("harness node %s %s (send %d)", e.Node.Name, e.What, e.Send)
+}
 
 // N is a harness node.
 type N struct {
@@ -94,14 +98,14 @@ type N struct {
 	SinkReturnsEvent bool // a passing sink returns the event instead of nil
 	Default          Behav
 
-	Reopens    atomic.Int32
-	Closes     atomic.Int32
-	ReopenErr  error
-	CloseErr   error
-	OnReopen   func(n *N)
-	OnClose    func(n *N)
-	OnType     func(n *N) // Type() is user code too: lets a test yield / delay inside the library's validation
-	errs       sync.Map   // send id -> error
+	Reopens   atomic.Int32
+	Closes    atomic.Int32
+	ReopenErr error
+	CloseErr  error
+	OnReopen  func(n *N)
+	OnClose   func(n *N)
+	OnType    func(n *N) // Type() is user code too: lets a test yield / delay inside the library's validation
+	errs      sync.Map   // send id -> error
 }
 
 var _ eventlogger.Node = (*N)(nil)
@@ -132,11 +136,13 @@ func (n *N) Close(ctx context.Context) error {
 
 // Error flavours: what kind of Go error value a failing node returns.
 const (
-	ErrPlain      = iota // a unique *NodeErr
-	ErrMultiAgg          // a *multierror.Error aggregating three errors
-	ErrMultiNil          // a typed-nil *multierror.Error inside a non-nil error interface
-	ErrJoined            // errors.Join of two errors
-	ErrWrapped           // fmt.Errorf("...: %w", err)
+	ErrPlain       = iota // a unique *NodeErr
+	ErrMultiAgg           // a *multierror.Error aggregating three errors
+	ErrMultiNil           // a typed-nil *multierror.Error inside a non-nil error interface
+	ErrJoined             // errors.Join of two errors
+	ErrWrapped            // fmt.Errorf("...: %w", err)
+	ErrCtxDeadline        // looks like a context error (a node-owned timeout) although the Send's context is live
+	ErrCtxCanceled        // wraps context.Canceled although the Send's context is live
 	NumErrKinds
 )
 
@@ -160,6 +166,10 @@ func (n *N) ErrForKind(send, kind int) error {
 		e = errors.Join(base, &NodeErr{Node: n, Send: send, What: "joined"})
 	case ErrWrapped:
 		e = fmt.Errorf("wrapped by node: %w", base)
+	case ErrCtxDeadline:
+		e = fmt.Errorf("node-owned write timeout: %w", errors.Join(context.DeadlineExceeded, base))
+	case ErrCtxCanceled:
+		e = fmt.Errorf("node gave up: %w", errors.Join(base, context.Canceled))
 	}
 	v, _ := n.errs.LoadOrStore(send, errBox{e})
 	return v.(errBox).err
